@@ -4,6 +4,7 @@
    (fixes/C17-*.patch). *)
 From Coq Require Import String Ascii DecimalString.
 Require Import Hdl21.Base.PyInt Hdl21.Spec.SimSpec.
+Require Hdl21Gen.C17Names.
 
 (* state-threading traversals, defined so that nested fixpoints over them pass the guard checker *)
 Definition thread {A B S} (f : A -> S -> result (B * S)) : list A -> S -> result (list B * S) :=
@@ -14,9 +15,13 @@ Definition thread {A B S} (f : A -> S -> result (B * S)) : list A -> S -> result
 Definition seq_fold {A S} (f : A -> S -> result S) : list A -> S -> result S :=
   fix go l s := match l with [] => Ok s | x :: l' => s' <- f x s ;; go l' s' end.
 
-(* ---- SimProtoExporter.next_analysis_name: f"Analysis{self.analysis_count}" ---- *)
+(* ---- SimProtoExporter.next_analysis_name: f"<prefix>{self.analysis_count}".  The property leaves the spelling of the prefix
+        free (it asks for distinct names); it is a REGENERATED table entry (Hdl21Gen.C17Names.auto_name_prefix, read off the
+        names the live exporter gives to unnamed analyses), "Analysis" in the tree the model was written for.  Everything
+        proved about auto_name below holds for an arbitrary prefix (auto_name_of). ---- *)
 Definition string_of_N (n : N) : string := NilEmpty.string_of_uint (N.to_uint n).
-Definition auto_name (k : N) : string := String.append "Analysis" (string_of_N k).
+Definition auto_name_of (prefix : string) (k : N) : string := String.append prefix (string_of_N k).
+Definition auto_name (k : N) : string := auto_name_of Hdl21Gen.C17Names.auto_name_prefix k.
 (* `an.name or self.next_analysis_name()` : None and "" are falsy *)
 Definition pick_name (n : option string) (k : N) : string * N :=
   match user_name n with Some s => (s, k) | None => (auto_name k, N.succ k) end.
